@@ -274,6 +274,8 @@ def run_case(case: Dict[str, Any]) -> Dict[str, Any]:
         finals = [m for m in msgs if not m.get('interim')]
         got = [bytes(m['body']) for m in finals if m['complete']]
         obs['responses_matched'] = 0
+        if any(sp.get('big') for sp in specs):
+            obs['histories_with_buffer_sized_chunked_upload'] = 1
         detail_base = {'requests': [s['rid'] + '>' + s['to'] for s in specs], 'got': [g[:24] for g in got],
                        'packing': packing, 'client_ended': client.ended, 'client_rx_head': bytes(client.rx[:160]),
                        'origin_saw': {nm: [r['hd'].get(b'x-req-id', b'?') for r in ao.all_requests()] for nm, ao in origins.items()},
@@ -402,6 +404,18 @@ def cases(tier: str, seed: int):
                         sizes.append(s)
                         left -= s
                     spec['sizes'] = sizes
+                if packing in ('keepalive', 'packed', 'per-request') and rng.random() < 0.05:
+                    # a chunked upload whose decoded size sits exactly on (or next to) a multiple of the proxy's buffer size
+                    n_ = rng.choice([65536, 131072, 131072, 262144, 131071, 131073])
+                    spec['body'] = ('0123456789abcdef' * (n_ // 16 + 1))[:n_]
+                    spec['chunked'] = True
+                    spec['sizes'] = [min(n_, rng.choice([n_, 4096, 65536, 100000]))]
+                    left = n_ - spec['sizes'][0]
+                    while left > 0:
+                        s_ = min(left, spec['sizes'][0])
+                        spec['sizes'].append(s_)
+                        left -= s_
+                    spec['big'] = True
             reqs.append(spec)
         if role == 'reverse' and packing in ('keepalive', 'overlap') and rng.random() < 0.5:
             for r_ in reqs[1:]:
@@ -449,7 +463,7 @@ def cases(tier: str, seed: int):
 
 def floors(tier: str) -> Dict[str, int]:
     return {'histories>=3': 200, 'packing:packed': 150, 'role:forward': 50, 'role:web': 50, 'role:reverse': 50, 'role:mixed': 100, 'proxy_protocol_histories': 100,
-            'responses_matched': 300, 'multi_target': 30, 'last_request_asks_close': 100, 'packing:overlap': 50, 'unrouted_followups_checked': 10, 'with_body': 100, 'distinct:schedules': 200}
+            'responses_matched': 300, 'multi_target': 30, 'last_request_asks_close': 100, 'packing:overlap': 50, 'unrouted_followups_checked': 10, 'with_body': 100, 'distinct:schedules': 200, 'histories_with_buffer_sized_chunked_upload': 30}
 
 
 if __name__ == '__main__':
